@@ -48,6 +48,8 @@ FAMILIES = [  # (base token, python base, prefix (base, exp))
     ("i:10", 10, (0, 0)), ("i:10", 10, (10, -1)), ("i:10", 10, (10, -3)),
     ("f:4005bf0a8b145769", math.e, (0, 0)), ("f:4005bf0a8b145769", math.e, (10, -1)),
     ("i:2", 2, (0, 0)), ("i:2", 2, (12, -1)), ("i:2", 2, (1200, -1)),
+    # multiplying prefixes (one level step is MORE than one base step): deka-/hecto-bel, kilo-neper, kibi-octave
+    ("i:10", 10, (10, 1)), ("i:10", 10, (10, 2)), ("f:4005bf0a8b145769", math.e, (10, 3)), ("i:2", 2, (2, 10)),
 ]
 REFS = ["watt", "volt", "pascal", "ampere", "hertz", "joule", "meter"]
 
@@ -203,6 +205,10 @@ def generate(ctx, n_ops):
                 ctx.nq += 1
         for _ in range(rng.randint(1, 3)):
             lm = rng.choice(["i:0", "i:20", "i:-30", ftok(rng.uniform(-200, 200)), "i:120", ftok(-3.0103)])
+            if pfx[1] > 0:
+                # keep the denoted quantity inside the float range: |level * prefix| <= ~200 base steps
+                span = 200.0 / (pfx[0] ** pfx[1])
+                lm = rng.choice(["i:0", ftok(rng.uniform(-span, span)), ftok(span / 7), ftok(-span / 3)])
             res = yield "X\tlnew\t%s\tn:%d" % (lm, li)
             emitted += 1
             if not res.startswith("ok\tL"):
